@@ -306,6 +306,10 @@ def gen_arith(rng):
             lines.append('%s = (%s + %s) * (%s + %d)' % (a, b, c, rng.choice(vs), rng.randint(1, 3)))
         elif r < 0.5:
             lines.append("%s = report[%s][%s] %s %s" % (a, rng.choice(["'Station'", "'Data'"]), rng.choice(["'Code'", "'Rain'"]), rng.choice(['+', '*', '-']), b))
+        elif r < 0.54:
+            # sums and products in fields that have an empty neighbour (slice bounds, a lone argument)
+            lines.append(rng.choice(['part = rows[%s + %s:]' % (a, b), 'part = rows[:%s * %s]' % (a, b), 'part = rows[%s + %s:%s]' % (a, b, c),
+                                     'print(%s * %s)' % (a, b), 'part = rows[::%s + %s]' % (a, b)]))
         elif r < 0.58:
             lines.append('print(%s + %s, %s * %s)' % (a, b, b, c))
         elif r < 0.66:
